@@ -166,7 +166,7 @@ PINS = {
     "runner/sync_core.py:_handle_abort_attempt_end": "6aaf6286d3ebf8e7",
     "runner/sync_core.py:_handle_success_attempt_end": "254d541d66e629c7",
     # the sync attempt-timeout wrapper (one executor per attempt: a hung attempt never delays the next; DESIGN §15)
-    "runner/sync_core.py:_call_with_timeout": "6c627cbccb9c1245",
+    "runner/sync_core.py:_call_with_timeout": "923e2ce20bac3227",
     "runner/async_core.py:_handle_abort_attempt_end": "6aaf6286d3ebf8e7",
     "runner/async_core.py:_handle_success_attempt_end": "254d541d66e629c7",
 }
